@@ -201,7 +201,10 @@ class Parser:
         elif tok == ('p', '(') and self.peek() == ('p', '{'):
             e = ('stmtexpr', self.block()); self.eat(')')
         elif tok == ('p', '('):
-            e = self.expr(); self.eat(')')
+            e = self.expr()
+            while self.peek() == ('p', ','):        # comma operator (only inside parentheses: argument lists never get here)
+                self.eat(); e = ('comma', e, self.expr())
+            self.eat(')')
         else:
             raise NotInSubset('primary %r' % (tok,))
         while True:
@@ -432,6 +435,9 @@ class Eval:
                     '==': lambda: int(a == b), '!=': lambda: int(a != b), '&': lambda: a & b, '|': lambda: a | b, '^': lambda: a ^ b}[op]()
         if k == 'cond':
             return self.ev(e[2], env) if self.ev(e[1], env) else self.ev(e[3], env)
+        if k == 'comma':
+            self.ev(e[1], env)
+            return self.ev(e[2], env)
         if k == 'arrow':
             o = self.ev(e[1], env)
             if not isinstance(o, dict) or e[2] not in o:
